@@ -92,12 +92,23 @@ void RSModel::ResetAliases() {
 }
 
 bool RSModel::Erase(const EntityUID target) {
+  if (!core.Contains(target)) {
+    return false;
+  }
+  // Note: dependants should be collected before the constituent leaves the graph
+  auto dependants = core.RSLang().Graph().ExpandOutputs({ target });
+  dependants.erase(target);
   if (!core.Erase(target)) {
     return false;
   } else {
     dataFacet->Erase(target);
     calulatorFacet->Erase(target);
-    ResetDependants(target);
+    for (const auto dependant : dependants) {
+      if (!IsBaseSet(core.GetRS(dependant).type)) {
+        calulatorFacet->ResetFor(dependant);
+        dataFacet->ResetFor(dependant);
+      }
+    }
     NotifyModification();
     return true;
   }
